@@ -11,19 +11,28 @@ structure Proj where
   members : List Nat
   admins : List Nat
   name : Nat
+  desc : Nat
+  relays : List Nat
+  nid : Nat
   props : List Nat
   pending : Option Ev
   recEpoch : Nat
   recName : Nat
   recAdmins : List Nat
+  recDesc : Nat
+  recRelays : List Nat
+  recNid : Nat
+  active : Bool
   last : Option (Nat × Nat)
   msgs : List MsgRow
   hasGroup : Bool
   deriving DecidableEq, Repr
 
 def proj (c : Cl) : Proj :=
-  { path := c.g.path, members := c.g.members, admins := c.g.admins, name := c.g.name, props := c.g.props,
+  { path := c.g.path, members := c.g.members, admins := c.g.admins, name := c.g.name, desc := c.g.desc,
+    relays := c.g.relays, nid := c.g.nid, props := c.g.props,
     pending := c.g.pending, recEpoch := c.g.recEpoch, recName := c.g.recName, recAdmins := c.g.recAdmins,
+    recDesc := c.g.recDesc, recRelays := c.g.recRelays, recNid := c.g.recNid, active := c.g.active,
     last := c.g.last, msgs := c.msgs, hasGroup := c.hasGroup }
 
 @[simp] theorem proj_setRec (c : Cl) (n : Nat) (r : Rec) : proj (setRec c n r) = proj c := rfl
@@ -38,6 +47,21 @@ theorem ensureSecret_fields (g : GState) :
     (ensureSecret g).consumed = g.consumed ∧ (ensureSecret g).past = g.past := by
   unfold ensureSecret; split <;> simp
 
+/-- … and the group-data fields added with the widened model -/
+theorem ensureSecret_data (g : GState) :
+    (ensureSecret g).desc = g.desc ∧ (ensureSecret g).relays = g.relays ∧ (ensureSecret g).nid = g.nid ∧
+    (ensureSecret g).recDesc = g.recDesc ∧ (ensureSecret g).recRelays = g.recRelays ∧ (ensureSecret g).recNid = g.recNid := by
+  unfold ensureSecret; split <;> simp
+
+@[simp] theorem ensureSecret_active (g : GState) : (ensureSecret g).active = g.active := by
+  unfold ensureSecret; split <;> simp
+@[simp] theorem withSecret_active (c : Cl) : (withSecret c).g.active = c.g.active := ensureSecret_active c.g
+
+@[simp] theorem ensureSecret_desc (g : GState) : (ensureSecret g).desc = g.desc := (ensureSecret_data g).1
+@[simp] theorem ensureSecret_relays (g : GState) : (ensureSecret g).relays = g.relays := (ensureSecret_data g).2.1
+@[simp] theorem ensureSecret_nid (g : GState) : (ensureSecret g).nid = g.nid := (ensureSecret_data g).2.2.1
+@[simp] theorem ensureSecret_recNid (g : GState) : (ensureSecret g).recNid = g.recNid := (ensureSecret_data g).2.2.2.2.2
+
 @[simp] theorem ensureSecret_path (g : GState) : (ensureSecret g).path = g.path := (ensureSecret_fields g).1
 @[simp] theorem ensureSecret_members (g : GState) : (ensureSecret g).members = g.members := (ensureSecret_fields g).2.1
 @[simp] theorem ensureSecret_admins (g : GState) : (ensureSecret g).admins = g.admins := (ensureSecret_fields g).2.2.1
@@ -46,7 +70,8 @@ theorem ensureSecret_fields (g : GState) :
 
 @[simp] theorem proj_ensureSecret (c : Cl) : proj { c with g := ensureSecret c.g } = proj c := by
   have := ensureSecret_fields c.g
-  simp [proj, this]
+  have := ensureSecret_data c.g
+  simp [proj, *]
 
 @[simp] theorem proj_withSecret (c : Cl) : proj (withSecret c) = proj c := proj_ensureSecret c
 @[simp] theorem withSecret_path (c : Cl) : (withSecret c).g.path = c.g.path := (ensureSecret_fields c.g).1
@@ -66,7 +91,8 @@ theorem failUnprocessable_proj (c : Cl) (e : Ev) : proj (failUnprocessable c e).
 
 /-- the stored record mirrors the MLS state -/
 def Synced (g : GState) : Prop :=
-  g.recEpoch = epochOf g.path ∧ g.recName = g.name ∧ g.recAdmins = g.admins
+  g.recEpoch = epochOf g.path ∧ g.recName = g.name ∧ g.recAdmins = g.admins ∧
+  g.recDesc = g.desc ∧ g.recRelays = g.relays ∧ g.recNid = g.nid
 
 instance (g : GState) : Decidable (Synced g) := by unfold Synced; infer_instance
 
@@ -74,14 +100,15 @@ theorem synced_syncRec (g : GState) : Synced (syncRec g) := by simp [Synced, syn
 
 theorem synced_ensureSecret (g : GState) (h : Synced g) : Synced (ensureSecret g) := by
   have := ensureSecret_fields g
+  have := ensureSecret_data g
   simp only [Synced] at *
-  simp [this, h]
+  simp [*]
 
 theorem synced_withSecret (c : Cl) (h : Synced c.g) : Synced (withSecret c).g := synced_ensureSecret c.g h
 
 theorem returnOwnCommit_proj (c : Cl) (h : Synced c.g) : proj (returnOwnCommit c).1 = proj c := by
-  obtain ⟨h1, h2, h3⟩ := h
-  simp [returnOwnCommit, proj, syncRec, h1, h2, h3]
+  obtain ⟨h1, h2, h3, h4, h5, h6⟩ := h
+  simp [returnOwnCommit, proj, syncRec, h1, h2, h3, h4, h5, h6]
 
 theorem notBetterResult_proj (c : Cl) (e : Ev) (h : Synced c.g) : proj (notBetterResult c e).1 = proj c := by
   unfold notBetterResult
